@@ -125,6 +125,7 @@ def write_cmd(radio, agg, rule="R01.4", lite=False):
         for wo in (False, True):
             n += 1
             st = radio.fresh({contract.DYNPD: 0x3F, contract.FEATURE: 0x05})
+            t0 = st.extra.get("txn", 0)        # transactions up to here happened before the call: their STATUS is the cached one
             outs = radio.run(f, [param_buf(length=7), ask, wo], st)
             for out in outs:
                 if out.kind != "return":
@@ -132,6 +133,18 @@ def write_cmd(radio, agg, rule="R01.4", lite=False):
                     continue
                 loads = tx_loads(out)
                 full = [e for e in out.trace if e.kind == "cond" and e.data[0] is True and _mentions_bit0(e)]
+                # the "TX FIFO full?" decision must look at a STATUS byte clocked out during THIS call: the byte cached before the call was
+                # shifted out while the previous command (e.g. the previous W_TX_PAYLOAD) was still being clocked in, so it does not show
+                # that payload yet - a 4th payload would be pushed into a full FIFO and write() would report success
+                for e in out.trace:
+                    if e.kind != "cond" or isinstance(e.data[1], tuple):
+                        continue
+                    sb = status_bits_of(e.data[1]) if isinstance(norm(e.data[1]), BitV) else None
+                    if sb and any(src is not None and src[1] == 0 for src in sb.values()) and (not loads or e.seq < loads[0].seq):
+                        txns = {src[0] for src in sb.values() if src is not None and src[1] == 0}
+                        agg.add(rule, f, "the TX_FULL test uses a STATUS byte read during this call, not the one cached before it", all(isinstance(t_, int) and t_ > t0 for t_ in txns),
+                                "write(): TX_FULL is tested in the STATUS byte of transaction %r, but the call's own transactions start at %d: the byte cached before the call "
+                                "does not show the payload loaded last" % (sorted(txns, key=str), t0 + 1), e.node)
                 if not loads:
                     ok = value_matches(out.value, False)
                     agg.add(rule, f, "TX FIFO full: returns False, loads nothing", ok, "returns %r" % (out.value,))
@@ -240,17 +253,32 @@ def status_bits_of(v):
 
 def implied_status_bits(e):
     """STATUS bit numbers that a true `cond` event proves to be 1: a truth test of one single bit, or `(s & m) == c` for the bits of c"""
-    if e.kind != "cond" or e.data[0] is not True:
+    if e.kind != "cond":
         return set()
     v = e.data[1]
     if isinstance(v, tuple):
-        if len(v) != 2 or not isinstance(e.node, ast.Compare) or not isinstance(e.node.ops[0], ast.Eq):
+        # `(s & m) == c` taken as true, or `(s & m) != c` taken as false; `flag is True` / `flag is not True` likewise
+        if len(v) != 2 or not isinstance(e.node, ast.Compare) or not isinstance(e.node.ops[0], (ast.Eq, ast.NotEq, ast.Is, ast.IsNot)):
+            return set()
+        if (e.data[0] is True) != isinstance(e.node.ops[0], (ast.Eq, ast.Is)):
+            return set()
+        for x, y in ((v[0], v[1]), (v[1], v[0])):
+            if isinstance(norm(y), Const) and norm(y).v is True:
+                b = status_bits_of(x) if isinstance(norm(x), BitV) else None
+                if b and len(b) == 1:
+                    src = list(b.values())[0]
+                    if src is not None and not src[2]:
+                        return {src[1]}
+                return set()
+        if isinstance(e.node.ops[0], (ast.Is, ast.IsNot)):
             return set()
         for x, y in ((v[0], v[1]), (v[1], v[0])):
             c = const_of(norm(y))
             b = status_bits_of(x) if isinstance(norm(x), BitV) else None
             if isinstance(c, int) and not isinstance(c, bool) and b:
                 return {src[1] for i, src in b.items() if src is not None and not src[2] and (c >> i) & 1}
+        return set()
+    if e.data[0] is not True:
         return set()
     b = status_bits_of(v) if isinstance(norm(v), BitV) else None
     if b and len(b) == 1:
@@ -392,6 +420,17 @@ def send_outcome(radio, agg, lite=False):
                 agg.add("R02.1", f, "send() has a STATUS polling loop", nl > 0, "%s: no loop testing STATUS found" % label)
                 freshness(radio, agg, f, outs, need_load=True)
                 cut = [e for o in outs for e in o.trace if e.kind == "cut"]
+                most = max([len([e for e in o.trace if e.kind == "opaque"]) for o in outs if o.kind == "return" and tx_loads(o)], default=0)
+                for retry_ in (retry, 1):
+                    if retry_ == 1:
+                        # force_retry = 1: exactly one forced retry is possible
+                        st1 = set_status(radio, radio.fresh({contract.DYNPD: 0x3F, contract.FEATURE: 0x05}), 0x0E)
+                        o1 = radio.run(f, [param_buf(length=5), False, 1, so], st1, limits=Limits(max_paths=8000, loop_unroll=3))
+                        most_ = max([len([e for e in o.trace if e.kind == "opaque"]) for o in o1 if o.kind == "return" and tx_loads(o)], default=0)
+                    else:
+                        most_ = most
+                    agg.add("R02.5", f, "when every attempt fails, resend() is forced exactly force_retry times (False only after all of them)", most_ == retry_,
+                            "send(force_retry=%d, send_only=%r): at most %d resend() call(s) on any path, expected %d" % (retry_, so, most_, retry_))
                 for out in outs:
                     if out.kind != "return":
                         continue
@@ -454,17 +493,10 @@ def send_with_real_resend(radio, agg, lite=False):
 
 
 def _ack_guard(out, f):
-    """the path passed a true test on STATUS bits 6 and 5 inside f"""
+    """the path's decisions prove RX_DR (bit 6) and TX_DS (bit 5) of STATUS (whatever the polarity / spelling of the tests)"""
     need = set()
     for e in out.trace:
-        if e.kind == "cond" and e.data[0] is True:
-            vals = e.data[1] if isinstance(e.data[1], tuple) else (e.data[1],)
-            for x in vals:
-                b = status_bits_of(x) if isinstance(norm(x), BitV) else None
-                if b:
-                    for _i, src in b.items():
-                        if src is not None:
-                            need.add(src[1])
+        need |= implied_status_bits(e)
     return {5, 6} <= need
 
 
